@@ -16,6 +16,7 @@ RULE = (
     "int / negative / float / string / mixed int-and-string labels (incl. numbers whose string order differs from their numeric order), explicit simplex IDs and drawn orientations given as ints, Python bools, numpy bools or numpy ints. Oracle "
     "for k = 1..dim+1: each column of B_k has exactly k+1 non-zeros, all +-1, at the faces of that simplex (through the "
     "index maps); B_k B_{k+1} = 0 exactly; every Hodge Laplacian symmetric PSD; dim ker L_0 = number of components "
+    "Every case is evaluated again after a new triangle was added to the same complex. "
     "computed by the harness. non-trivial = the complex has a simplex of order >= 2 and a non-default orientation"
 )
 BUDGET = {"quick": 500, "thorough": 20000}
